@@ -1,2 +1,97 @@
--- driver stub for C16: replaced by the real line-protocol driver
-def main : IO Unit := pure ()
+import Bermuda.Model.Json
+import Bermuda.Model.Blend
+import Bermuda.Spec.C16
+open Lean Bermuda Bermuda.Blend
+
+def ratsFromJson (j : Json) : Except String (List Rat) := do
+  (← j.getArr?).toList.mapM ratFromJson
+
+def warrFromJson (j : Json) : Except String WArr := do
+  let a ← j.getArr?
+  if a.size != 2 then throw "warr: want pair"
+  match (← a[0]!.getStr?) with
+  | "s" => return .scalar (← ratFromJson a[1]!)
+  | "v" => return .vec (← ratsFromJson a[1]!)
+  | "m" => return .mat (← (← a[1]!.getArr?).toList.mapM ratsFromJson)
+  | t => throw s!"warr: bad tag {t}"
+
+def weightsFromJson (j : Json) : Except String Weights := do
+  if j.isNull then return .none
+  let a ← j.getArr?
+  match (← a[0]!.getStr?) with
+  | "l" => return .list (← ratsFromJson a[1]!)
+  | "d" => return .dict (← (← a[1]!.getArr?).toList.mapM warrFromJson)
+  | "o" => return .other
+  | t => throw s!"weights: bad tag {t}"
+
+/-- a recorded call of `np.random.choice(range(M), S, p=p)` and what it returned -/
+structure Draw where
+  S : Nat
+  p : List Rat
+  idx : List Nat
+
+def drawFromJson (j : Json) : Except String Draw := do
+  let a ← j.getArr?
+  if a.size != 3 then throw "draw: want [S,p,idx]"
+  return { S := ← a[0]!.getNat?, p := ← ratsFromJson a[1]!,
+           idx := ← (← a[2]!.getArr?).toList.mapM (·.getNat?) }
+
+def absD (q : Rat) : Rat := if q < 0 then -q else q
+
+/-- the draw recorded for sample size `S` and probabilities `w` (2⁻⁴⁰: `1/3` is not a double) -/
+def findDraw (draws : List Draw) (S : Nat) (w : List Rat) : List Nat :=
+  match draws.find? (fun d => d.S == S && d.p.length == w.length &&
+      (d.p.zip w).all fun (a, b) => absD (a - b) ≤ 1 / 1099511627776) with
+  | some d => d.idx
+  | none => []
+
+def optBool (b : Option Bool) : Json := match b with | some b => Json.bool b | none => Json.null
+
+def handle (j : Json) : Except String Json := do
+  let op ← (← j.getObjVal? "op").getStr?
+  match op with
+  | "blend" =>
+    let ts ← (← (← j.getObjVal? "ts").getArr?).toList.mapM cellsFromJson
+    let w ← weightsFromJson (← j.getObjVal? "w")
+    let method ← (← j.getObjVal? "method").getStr?
+    let draws ← (← (← j.getObjVal? "draws").getArr?).toList.mapM drawFromJson
+    let tol ← ratFromJson (← j.getObjVal? "tol")
+    let M := ts.length
+    let idx : Nat → String → List Nat :=
+      match blendPrep ts w method with
+      | .error _ => fun _ _ => []
+      | .ok (_, t0, wl) => fun i f =>
+        match (t0.getD i default).values.get? f with
+        | some v =>
+          (match sampleLen v with
+           | .ok S => findDraw draws S ((wl.getD i none).getD (List.replicate M (1 / (M : Rat))))
+           | .error _ => [])
+        | none => []
+    let model := blend ts w method idx
+    let errs := blendErrs ts w method idx
+    let spec ← match j.getObjVal? "impl" with
+      | .ok v =>
+        if v.isNull then pure Json.null else do
+          let out ← cellsFromJson v
+          let t0 := ts.headD []
+          let linear := (parseMethod method) == some .linear
+          let flag (k : String) : Bool := match j.getObjVal? k with | .ok (Json.bool b) => b | _ => false
+          let deg : Option Nat := match j.getObjVal? "degenerate" with
+            | .ok v => (v.getNat?).toOption
+            | .error _ => none
+          pure <| Json.mkObj [
+            ("structure", Json.bool (Spec.C16.structureOk t0 out)),
+            ("linear", optBool (if linear then some (Spec.C16.linearValueOk ts w out tol) else none)),
+            ("convex", optBool (if linear && flag "convex" then some (Spec.C16.convexOk ts out tol) else none)),
+            ("agree", optBool (if linear && flag "agree" then some (Spec.C16.agreeOk ts out tol) else none)),
+            ("membership", optBool (if !linear then some (Spec.C16.mixtureMembership ts out) else none)),
+            ("degenerate", optBool (match deg with
+               | some d => if !linear then some (Spec.C16.mixtureIsInput ts d out) else none
+               | none => none))]
+      | .error _ => pure Json.null
+    return Json.mkObj [("model", exceptToJson cellsToJson model),
+                       ("errs", Json.arr (errs.map (fun e => Json.str e.name)).toArray),
+                       ("spec", spec)]
+  | o => throw s!"unknown op {o}"
+
+def main : IO Unit := serve handle
